@@ -25,8 +25,11 @@ from rpv.gen import METHODS
 PROPERTY_ID = "C18"
 LEVEL = "exploration"
 RULE = (
-    "real CLI runs of all five entry points on valid inputs (all generators, date filters, -n, prefixes) and on invalid "
-    "inputs / options (error paths) with the audit hook recording socket.*, name resolution, subprocess / os.system / exec / "
+    "real CLI runs of all five entry points on valid inputs (all generators, date filters, -n, prefixes), on valid inputs with "
+    "every environment variable that RP2's own files were observed consulting set (names discovered at run time by a hook on "
+    "os.environ lookups, e.g. RP2_ENABLE_PROFILER, LOG_LEVEL), on inputs carrying one fault of C12's catalogue (row / structure / "
+    "config classes), on hard errors (garbage or binary config, input that is not a zip, missing files, wrongly typed cells: "
+    "exceptions other than RP2ValueError) and on invalid options, with the audit hook recording socket.*, name resolution, subprocess / os.system / exec / "
     "spawn / fork, ctypes.dlopen, webbrowser, file opens for writing, rename / remove / mkdir and imports with their direct "
     "importer; a subset of the same runs under strace -f (network and process syscalls); sha256 of input and config before and "
     "after; listing of cwd and of a decoy $HOME; an import sweep loading every module found by walking the package. "
@@ -38,8 +41,8 @@ ASSUMPTIONS = [
     "strace sees the Python interpreter's own syscalls too: only network-family and process-creation syscalls are judged",
 ]
 SETTINGS: Dict[str, Dict[str, Any]] = {
-    "quick": {"cases": 30, "strace_every": 5, "budget_s": 75, "minimums": {"audited_runs": 28, "strace_runs": 5, "write_events": 100, "import_events": 5000, "modules_swept": 40, "import_sites": 250, "nontrivial": 25}, "required_tags": {"tag_country": list(COUNTRIES)}},
-    "thorough": {"cases": 400, "strace_every": 6, "budget_s": 600, "minimums": {"audited_runs": 380, "strace_runs": 60, "write_events": 1500, "import_events": 60000, "modules_swept": 40, "import_sites": 250, "nontrivial": 300}, "required_tags": {"tag_country": list(COUNTRIES)}},
+    "quick": {"cases": 160, "strace_every": 8, "budget_s": 75, "minimums": {"audited_runs": 120, "strace_runs": 12, "write_events": 400, "import_events": 20000, "modules_swept": 40, "import_sites": 250, "nontrivial": 100, "error_path_runs": 40, "runs_with_rp2_env_variable_set": 12, "tag_env_names_read_by_rp2": 2, "tag_error_types": 3, "tag_fault_class": 10}, "required_tags": {"tag_country": list(COUNTRIES)}},
+    "thorough": {"cases": 1600, "strace_every": 8, "budget_s": 600, "minimums": {"audited_runs": 1200, "strace_runs": 120, "write_events": 4000, "import_events": 200000, "modules_swept": 40, "import_sites": 250, "nontrivial": 1000, "error_path_runs": 400, "runs_with_rp2_env_variable_set": 120, "tag_env_names_read_by_rp2": 2, "tag_error_types": 3, "tag_fault_class": 30}, "required_tags": {"tag_country": list(COUNTRIES)}},
 }
 NETWORK_MODULES = {
     "socket", "_socket", "ssl", "_ssl", "http", "http.client", "http.server", "http.cookiejar", "urllib.request", "urllib3", "ftplib", "smtplib", "poplib", "imaplib",
@@ -51,6 +54,8 @@ STRACE_FORBIDDEN = re.compile(r"\b(socket|connect|bind|listen|accept4?|sendto|re
 
 
 def _sha(path: str) -> str:
+    if not os.path.exists(path):
+        return "(absent)"
     with open(path, "rb") as handle:
         return hashlib.sha256(handle.read()).hexdigest()
 
@@ -63,16 +68,47 @@ def _listing(root: str) -> List[str]:
     return sorted(out)
 
 
-def scenario(rng: Any, index: int) -> Dict[str, Any]:
+INPUT_ENV = ("CURRENCY_CODE", "LONG_TERM_CAPITAL_GAINS")  # inputs of the generic country (their faults are C12's classes)
+ENV_VALUES = ("1", "DEBUG", "INFO", "yes")
+KINDS = ("valid", "valid", "valid-env", "documented-fault", "valid", "hard-error", "documented-fault", "invalid-option", "valid-env", "documented-fault")
+
+
+def discover_env(ctx: Any) -> List[str]:
+    """Names of the environment variables that files of the package under test consult (observed, not grepped): one valid
+    run per entry point family under the audit hook. The scenarios then set each of them."""
+    names: Set[str] = set()
+    rng = ctx.rng("discover-env")
+    hists = cli_histories(rng, 1, cli_profile(max_events=6, min_events=3))
+    for country, args in (("us", ["-m", "fifo"]), ("generic", []), ("jp", ["-g", "en"])):
+        ws = Workspace(ctx.scratch, f"discover-{country}")
+        try:
+            ws.write(copy.deepcopy(hists))
+            res = ws.run(country, args, audit=True)
+            ctx.count("executions")
+            for event in res.audit:
+                if event.get("e") == "env-read":
+                    names.add(str(event.get("name")))
+        finally:
+            ws.cleanup()
+    for name in sorted(names):
+        ctx.tag("tag_env_names_read_by_rp2", name)
+    return sorted(names)
+
+
+def scenario(rng: Any, index: int, env_names: Optional[List[str]] = None) -> Dict[str, Any]:
+    from rpv.checks import c12
+
     country = COUNTRIES[index % len(COUNTRIES)]
-    hists = cli_histories(rng, rng.choice((1, 2)), cli_profile(max_events=10, min_events=4))
+    kind = KINDS[(index // len(COUNTRIES)) % len(KINDS)] if index >= len(COUNTRIES) else "valid"
+    two_assets = kind == "documented-fault" or rng.random() < 0.5
+    hists = cli_histories(rng, 2 if two_assets else 1, cli_profile(max_events=10, min_events=4))
     args: List[str] = []
-    kind = ("valid", "valid", "valid", "invalid-input", "invalid-option")[index % 5] if index >= len(COUNTRIES) else "valid"
+    case: Dict[str, Any] = {"country": country, "hists": hists, "kind": kind, "env": {}, "fault": None, "hard": None}
     language = rng.choice(COUNTRY_LANGUAGES[country])
     args += ["-g", language]
     if rng.random() < 0.6:
         args += ["-m", rng.choice(COUNTRY_METHODS[country])]
-    if kind == "valid":
+    if kind in ("valid", "valid-env"):
         if rng.random() < 0.3:
             args += ["-p", "pre_"]
         if rng.random() < 0.3:
@@ -82,19 +118,74 @@ def scenario(rng: Any, index: int) -> Dict[str, Any]:
 
             days = sorted({parse_ts(r["ts"]).date() for h in hists.values() for r in h["rows"]})
             args += ["-f", days[len(days) // 2].isoformat()]
-    elif kind == "invalid-input":
-        asset = sorted(hists)[0]
-        row = rng.choice(hists[asset]["rows"])
-        fault = rng.choice(("ts", "exchange", "amount"))
-        if fault == "ts":
-            row["ts"] = row["ts"].rsplit(" ", 1)[0]
-        elif fault == "exchange":
-            row["ex" if row["t"] != "INTRA" else "fex"] = "Nowhere"
-        else:
-            row["cin" if row["t"] == "IN" else ("cout" if row["t"] == "OUT" else "sent")] = "-3"
+        if kind == "valid-env":
+            candidates = [n for n in (env_names or []) if n not in INPUT_ENV]
+            if candidates:
+                chosen = candidates if rng.random() < 0.3 else [rng.choice(candidates)]
+                case["env"] = {name: rng.choice(ENV_VALUES) for name in chosen}
+            else:
+                case["kind"] = "valid"
+    elif kind == "documented-fault":
+        # one fault of C12's catalogue (row / structure / config / option classes), here observed for side effects
+        faults = [f for f in c12.enumerate_faults(hists, "sampled", rng) if f["kind"] != "args"]
+        # config and structure classes are few and rows many: pick the kind first
+        by_kind: Dict[str, List[Dict[str, Any]]] = {}
+        for f in faults:
+            by_kind.setdefault(f["kind"], []).append(f)
+        case["fault"] = rng.choice(by_kind[rng.choice(sorted(by_kind))])
+    elif kind == "hard-error":
+        case["hard"] = rng.choice(("ini-garbage-before-first-section", "ods-is-not-a-zip", "ods-missing", "ini-missing", "wrong-cell-type-number-in-text-field", "wrong-cell-type-text-in-timestamp", "ini-binary"))
     else:
-        args += rng.choice((["-f", "2022-01-01", "-t", "2021-01-01"], ["-l", "x"], ["-g", "zz"], ["-a", "NOPE"]))
-    return {"country": country, "hists": hists, "args": args, "kind": kind}
+        args += rng.choice((["-f", "2022-01-01", "-t", "2021-01-01"], ["-l", "x"], ["-g", "zz"], ["-a", "NOPE"], ["-f", "not-a-date"], ["--bogus-option"]))
+    case["args"] = args
+    return case
+
+
+def apply_case(ws: Workspace, case: Dict[str, Any]) -> None:
+    """Write the ini and ods of a scenario (faulted where the scenario says so)."""
+    import random as _random
+
+    from rpv import ods_io
+    from rpv.checks import c12
+
+    hists = copy.deepcopy(case["hists"])
+    fault = case.get("fault")
+    hard = case.get("hard")
+    if fault and fault["kind"] == "row":
+        row = next(r for r in hists[fault["asset"]]["rows"] if r["uid"] == fault["uid"] and r["t"] == fault["table"])
+        row.update(fault["edit"])
+    if hard == "wrong-cell-type-number-in-text-field":
+        row = hists[sorted(hists)[0]]["rows"][0]
+        row["ex" if row["t"] != "INTRA" else "fex"] = {"raw": 12.5}
+    elif hard == "wrong-cell-type-text-in-timestamp":
+        hists[sorted(hists)[0]]["rows"][0]["ts"] = {"raw": 20200101.5}
+    ws.write(hists)
+    if fault and fault["kind"] == "grid":
+        ods_io.write_input(ws.ods, copy.deepcopy(case["hists"]), ws.layout, _random.Random(0), faults={"asset": fault["asset"], "grid_edit": c12.grid_edit_for(fault)})
+    if fault and fault["kind"] == "ini":
+        assets = sorted(hists)
+        exchanges = sorted({e for h in hists.values() for e in h["exchanges"]})
+        holders = sorted({x for h in hists.values() for x in h["holders"]})
+        with open(ws.ini, encoding="utf-8") as handle:
+            text = handle.read()
+        text = c12.json_config(assets, exchanges, holders) if fault["class"] == "config-deprecated-json" else c12.mutate_ini(text, fault)
+        with open(ws.ini, "w", encoding="utf-8") as handle:
+            handle.write(text)
+    if hard == "ini-garbage-before-first-section":
+        with open(ws.ini, encoding="utf-8") as handle:
+            text = handle.read()
+        with open(ws.ini, "w", encoding="utf-8") as handle:
+            handle.write("this line precedes every section header\n" + text)
+    elif hard == "ini-binary":
+        with open(ws.ini, "wb") as handle:
+            handle.write(bytes(range(256)) * 4)
+    elif hard == "ods-is-not-a-zip":
+        with open(ws.ods, "w", encoding="utf-8") as handle:
+            handle.write("timestamp,asset\n2020-01-01,AAA\n")
+    elif hard == "ods-missing":
+        os.remove(ws.ods)
+    elif hard == "ini-missing":
+        os.remove(ws.ini)
 
 
 def judge_audit(ctx: Any, res: Any, ws: Workspace, out_dir: str, case: Dict[str, Any]) -> None:
@@ -153,20 +244,34 @@ def judge_strace(ctx: Any, text: str, case: Dict[str, Any]) -> None:
 def _one(ctx: Any, case: Dict[str, Any], name: str, strace: bool) -> None:
     ws = Workspace(ctx.scratch, name)
     try:
-        hists = copy.deepcopy(case["hists"])
-        ws.write(hists)
+        apply_case(ws, case)
         home = os.path.join(ws.root, "home")
         os.makedirs(home)
         with open(os.path.join(home, ".decoy"), "w", encoding="utf-8") as handle:
             handle.write("decoy")
         before = {"ini": _sha(ws.ini), "ods": _sha(ws.ods), "cwd": _listing(ws.root), "home": _listing(home)}
         out_dir = ws.new_out()
-        res = ws.run(case["country"], case["args"], out_dir=out_dir, audit=True, strace=False, home=home)
+        env_extra = dict(case.get("env") or {}) or None
+        res = ws.run(case["country"], case["args"], out_dir=out_dir, audit=True, strace=False, home=home, env_extra=env_extra)
         ctx.count("executions")
         ctx.count("valid_cases")
         ctx.count("audited_runs")
         ctx.tag("tag_country", case["country"])
         ctx.tag("tag_kind", f"{case['kind']}:exit{res.exit}")
+        for name, value in (case.get("env") or {}).items():
+            ctx.tag("tag_env_set", name)
+            ctx.count("runs_with_rp2_env_variable_set")
+        if case.get("fault"):
+            ctx.tag("tag_fault_class", case["fault"]["class"])
+        if case.get("hard"):
+            ctx.tag("tag_hard_error", case["hard"])
+        for event in res.audit:
+            if event.get("e") == "env-read":
+                ctx.tag("tag_env_names_read_by_rp2", str(event.get("name")))
+        if res.exit != 0:
+            ctx.count("error_path_runs")
+            types = re.findall(r"^(\w[\w\.]*(?:Error|Exception)\w*)", res.stderr, re.M)
+            ctx.tag("tag_error_types", types[-1] if types else ("argparse/exit" if "error:" in res.stderr or "ERROR" in res.stderr else "other"))
         if not res.audit:
             ctx.count("unobservable")
             ctx.tag("tag_unobservable", "no audit events recorded")
@@ -187,7 +292,7 @@ def _one(ctx: Any, case: Dict[str, Any], name: str, strace: bool) -> None:
             ctx.sample({"country": case["country"], "args": case["args"], "kind": case["kind"], "exit": res.exit, "files_written": res.files, "audit_events": len(res.audit), "writes": sorted({os.path.relpath(e["path"], ws.root) for e in res.audit if e.get("e") == "open-write"})[:6]})
         if strace:
             out2 = ws.new_out()
-            res2 = ws.run(case["country"], case["args"], out_dir=out2, audit=False, strace=True, home=home)
+            res2 = ws.run(case["country"], case["args"], out_dir=out2, audit=False, strace=True, home=home, env_extra=env_extra)
             ctx.count("executions")
             if res2.strace:
                 ctx.count("strace_runs")
@@ -261,11 +366,12 @@ def run_shard(ctx: Any) -> None:
     settings = SETTINGS[ctx.tier]
     if ctx.shard == 0:
         import_sweep(ctx)
+    env_names = discover_env(ctx)
     for i in range(ctx.share(settings["cases"])):
         if ctx.time_left() < 5:
             break
         index = ctx.shard + i * ctx.nshards
-        _one(ctx, scenario(ctx.rng("case", index), index), f"c18-{index}", strace=(index % settings["strace_every"] == 0))
+        _one(ctx, scenario(ctx.rng("case", index), index, env_names), f"c18-{index}", strace=(index % settings["strace_every"] == 0))
 
 
 def replay(ctx: Any, case: Dict[str, Any]) -> None:
@@ -296,5 +402,11 @@ def coverage(merged: Dict[str, Any], tier: str) -> Dict[str, Any]:
             "distinct_import_sites_observed_executing": len(merged["sets"].get("import_sites", ())),
         },
         "run_kinds_and_exit_codes": sorted(merged["sets"].get("tag_kind", ())),
+        "environment_variables_rp2_was_seen_reading": sorted(merged["sets"].get("tag_env_names_read_by_rp2", ())),
+        "environment_variables_set_in_some_run": sorted(merged["sets"].get("tag_env_set", ())),
+        "error_path_runs": c.get("error_path_runs", 0),
+        "exception_types_on_error_paths": sorted(merged["sets"].get("tag_error_types", ())),
+        "fault_classes_driven": sorted(merged["sets"].get("tag_fault_class", ())),
+        "hard_errors_driven": sorted(merged["sets"].get("tag_hard_error", ())),
         "networking_modules_imported_by_non_rp2_code": sorted(merged["sets"].get("tag_network_modules_imported_by_others", ())),
     }
